@@ -6,7 +6,7 @@ from ..model import norm, head, walk_no_nested, AnalysisError, FuncInfo, ClassIn
 from ..cfg import cfg_of
 from ..resolve import Resolver, Ctx
 from ..escape import Escape, fmt_chain, items_sorted
-from ..q import find, match, try_const, tests, calls, only_via
+from ..q import find, match, try_const, tests, calls, only_via, cfg_node_for
 from ..core import key
 from .c12 import TAG_BOUNDARIES
 
@@ -336,6 +336,30 @@ for _t in ("raise ValueError('invalid command data length')", "raise ValueError(
                [('nfc.tag.tt4.Type4ATag.__init__', 'self._extended_length_support = False'),
                 ('nfc.tag.tt4.Type4BTag.__init__', 'self._extended_length_support = False')])
 
+
+def _nlen_size_domain(f):
+    """_discover_ndef assigns self._nlen_size = tag - 2 once, behind a guard that admits tag 4 and 6 only."""
+    asg = [st for st in walk_no_nested(f.node) if isinstance(st, ast.Assign) and norm(st.targets[0]) == 'self._nlen_size']
+    if len(asg) != 1 or norm(asg[0].value) != 'tag - 2':
+        return False
+    cfg = cfg_of(f)
+    node = cfg_node_for(cfg, asg[0])
+    for e, tn in cfg.test_nodes.items():
+        t = norm(e)
+        for lab in ('true', 'false'):
+            if ('tag' in t and ('(4, 6)' in t or '((4, 6), (6, 8))' in t)) and node not in cfg.reachable(cfg.entry, avoid_edges=[(tn, lab)]):
+                return True
+    return False
+
+
+
+NLEN_REASON = ('len(nlen) == self._nlen_size is tested before the unpack, the format is ">I" for size 4 and ">H" otherwise, and _nlen_size is '
+               'tag - 2 with tag in (4, 6)')
+NLEN_ANCHORS = [('nfc.tag.tt4.Type4Tag.NDEF._read_ndef_data', lambda f: any(isinstance(i, ast.If) and norm(i.test) == 'len(nlen) != self._nlen_size' and
+                                                                            isinstance(i.body[-1], ast.Return) for i in ast.walk(f.node))),
+                ('nfc.tag.tt4.Type4Tag.NDEF._read_ndef_data', "lfmt = '>I' if self._nlen_size == 4 else '>H'"),
+                ('nfc.tag.tt4.Type4Tag.NDEF._discover_ndef', _nlen_size_domain)]
+triage.add('C16', 'C16-R1', key('struct.error', 'raised in nfc.tag.tt4.Type4Tag.NDEF._read_ndef_data', 'unpack(lfmt, nlen)'), NLEN_REASON, NLEN_ANCHORS)
 
 MUTANTS = [
     ('tt2-protocol-mapping-dropped', 'nfc.tag.tt2', """            if type(error) is nfc.clf.ProtocolError:
